@@ -184,87 +184,99 @@ def sym_matobj(it, suffix=''):
 def part_lamina(led):
     func = F + 'lamina.py:Lamina.rebuild'
     led.function(func)
-    it = mk_interp()
-    mod = it.module('compmech.composite.lamina')
-    cls = mod.g['Lamina']
-    mat = sym_matobj(it)
-    a = mat.attrs
-    admissible(it, a['e1'], a['e2'], a['nu12'], a['g12'], a['g13'], a['g23'])
-    th = real('theta')
+    E, nu = real('E'), real('nu')
+    names = ('E1', 'E2', 'nu12', 'G12', 'G13', 'G23')
+    v6 = tuple(real(n) for n in names)
+    v9 = v6 + (real('E3'), real('nu13'), real('nu23'))
+    G = E / (2 * (1 + nu))
+    forms = [('iso3', (E, E, nu), dict(E1=E, E2=E, nu12=nu, G12=G, G13=G, G23=G)),
+             ('ortho6', v6, dict(zip(names, v6))),
+             ('ortho9', v9, dict(zip(names, v6)))]
+    for tag, tup, cst in forms:
+        it = mk_interp()
+        mod = it.module('compmech.composite.lamina')
+        cls = mod.g['Lamina']
+        admissible(it, cst['E1'], cst['E2'], cst['nu12'], cst['G12'], cst['G13'], cst['G23'])
+        if tag == 'ortho9':
+            it.facts.append(to_z3(v9[6]) > 0)
+        rl = it.module('compmech.composite.matlamina').g['read_laminaprop']
+        th = real('theta')
 
-    def run(theta):
-        ply = it.call(cls, [], {})
-        ply.attrs['theta'] = theta
-        ply.attrs['t'] = real('t')
-        ply.attrs['matobj'] = mat
-        it.call(it.getattr(ply, 'rebuild'), [], {})
-        return ply
-    res = it.explore(lambda: run(th))
-    arg = th * shims.PI * Fraction(1, 180)
-    c, s = shims.sym_cos(arg), shims.sym_sin(arg)
-    want = SL.QL_matrix(a['e1'], a['e2'], a['nu12'], a['g12'], a['g13'], a['g23'], c, s)
-    for path, out in res:
-        if out[0] == 'raise':
-            led.fail(func + '/no-exception', func, {'raises': out[1].tname, 'args': [str(x) for x in out[1].eargs]})
+        def run(theta):
+            # the material object is the one the real read_laminaprop builds (executed symbolically), so every field the
+            # ply reads -- including derived ones -- is what the package itself provides
+            ply = it.call(cls, [], {})
+            ply.attrs['theta'] = theta
+            ply.attrs['t'] = real('t')
+            ply.attrs['matobj'] = it.call(rl, [tup], {})
+            it.call(it.getattr(ply, 'rebuild'), [], {})
+            return ply
+        res = it.explore(lambda: run(th))
+        arg = th * shims.PI * Fraction(1, 180)
+        c, s = shims.sym_cos(arg), shims.sym_sin(arg)
+        want = SL.QL_matrix(cst['E1'], cst['E2'], cst['nu12'], cst['G12'], cst['G13'], cst['G23'], c, s)
+        for path, out in res:
+            if out[0] == 'raise':
+                led.fail('%s[%s]/no-exception' % (func, tag), func, {'raises': out[1].tname, 'args': [str(x) for x in out[1].eargs]}, replay=replay_QL(tag, 0, 0))
+                continue
+            QL = out[1].attrs.get('QL')
+            if not isinstance(QL, np.ndarray) or QL.shape != (5, 5):
+                led.fail('%s[%s]/QL-shape' % (func, tag), func, {'found': repr(getattr(QL, 'shape', QL))})
+                continue
+            for i in range(5):
+                for j in range(5):
+                    ok, why = values_equal(QL[i, j], want[i, j])
+                    name = '%s[%s]/QL[%d,%d]==tensor-rotation' % (func, tag, i, j)
+                    if ok:
+                        led.ok(name, func, sample=({'spec': normal(want[i, j]).text()[:300]} if (i, j, tag) == (0, 2, 'ortho6') else None))
+                    else:
+                        led.fail(name, func, {'residual': why}, signature='QL%d%d' % (i, j), replay=replay_QL(tag, i, j))
+        if tag != 'ortho6':
             continue
-        QL = out[1].attrs.get('QL')
-        if not isinstance(QL, np.ndarray) or QL.shape != (5, 5):
-            led.fail(func + '/QL-shape', func, {'found': repr(getattr(QL, 'shape', QL))})
-            continue
-        for i in range(5):
-            for j in range(5):
-                ok, why = values_equal(QL[i, j], want[i, j])
-                name = '%s/QL[%d,%d]==tensor-rotation' % (func, i, j)
-                if ok:
-                    led.ok(name, func, sample=({'spec': normal(want[i, j]).text()[:300]} if (i, j) == (0, 2) else None))
-                else:
-                    led.fail(name, func, {'residual': why}, signature='QL%d%d' % (i, j),
-                             replay=replay_QL(i, j))
-        discharge_side(led, it, path, func, 'rebuild')
-    # consequences of tensor rotation, on the real code: theta -> -theta and theta -> theta + 90
-    flip = {(0, 2), (1, 2), (2, 0), (2, 1), (3, 4), (4, 3)}
-    res_m = it.explore(lambda: run(-th))
-    res_p = it.explore(lambda: run(th + 90))
-    base = res[0][1][1].attrs['QL'] if res and res[0][1][0] == 'return' else None
-    if base is not None and res_m and res_m[0][1][0] == 'return':
-        Qm = res_m[0][1][1].attrs['QL']
-        for i in range(5):
-            for j in range(5):
-                w = -base[i, j] if (i, j) in flip else base[i, j]
-                ok, why = values_equal(Qm[i, j], w)
-                name = '%s/mirror-angle[%d,%d]' % (func, i, j)
-                led.ok(name, func) if ok else led.fail(name, func, {'residual': why}, signature='mirror%d%d' % (i, j))
-    if base is not None and res_p and res_p[0][1][0] == 'return':
-        Qp = res_p[0][1][1].attrs['QL']
-        perm = {0: 1, 1: 0, 2: 2, 3: 4, 4: 3}
-        for i in range(5):
-            for j in range(5):
-                sgn = 1
-                if (i == 2) != (j == 2) and i < 3 and j < 3:
-                    sgn = -1
-                if {i, j} == {3, 4}:
-                    sgn = -1
-                w = base[perm[i], perm[j]] * sgn
-                ok, why = values_equal(Qp[i, j], w)
-                name = '%s/rotate-90[%d,%d]' % (func, i, j)
-                led.ok(name, func) if ok else led.fail(name, func, {'residual': why}, signature='rot90%d%d' % (i, j))
-    led.solver_time('z3-feasibility', it.solver_time)
+        # consequences of tensor rotation, on the real code: theta -> -theta and theta -> theta + 90
+        flip = {(0, 2), (1, 2), (2, 0), (2, 1), (3, 4), (4, 3)}
+        res_m = it.explore(lambda: run(-th))
+        res_p = it.explore(lambda: run(th + 90))
+        base = res[0][1][1].attrs['QL'] if res and res[0][1][0] == 'return' else None
+        if base is not None and res_m and res_m[0][1][0] == 'return':
+            Qm = res_m[0][1][1].attrs['QL']
+            for i in range(5):
+                for j in range(5):
+                    w = -base[i, j] if (i, j) in flip else base[i, j]
+                    ok, why = values_equal(Qm[i, j], w)
+                    name = '%s/mirror-angle[%d,%d]' % (func, i, j)
+                    led.ok(name, func) if ok else led.fail(name, func, {'residual': why}, signature='mirror%d%d' % (i, j))
+        if base is not None and res_p and res_p[0][1][0] == 'return':
+            Qp = res_p[0][1][1].attrs['QL']
+            perm = {0: 1, 1: 0, 2: 2, 3: 4, 4: 3}
+            for i in range(5):
+                for j in range(5):
+                    sgn = 1
+                    if (i == 2) != (j == 2) and i < 3 and j < 3:
+                        sgn = -1
+                    if {i, j} == {3, 4}:
+                        sgn = -1
+                    w = base[perm[i], perm[j]] * sgn
+                    ok, why = values_equal(Qp[i, j], w)
+                    name = '%s/rotate-90[%d,%d]' % (func, i, j)
+                    led.ok(name, func) if ok else led.fail(name, func, {'residual': why}, signature='rot90%d%d' % (i, j))
+        led.solver_time('z3-feasibility', it.solver_time)
 
 
-def replay_QL(i, j):
-    if 'ql' not in _RC:
-        _RC['ql'] = _replay_QL(i, j)
-    return _RC['ql']
+def replay_QL(tag, i, j):
+    if ('ql', tag) not in _RC:
+        _RC[('ql', tag)] = _replay_QL(tag, i, j)
+    return _RC[('ql', tag)]
 
 
-def _replay_QL(i, j):
+def _replay_QL(tag, i, j):
     from ..pyreplay import run_real
     script = '''
 import numpy as np
 from compmech.composite.lamina import Lamina
 from compmech.composite.matlamina import read_laminaprop
 E1,E2,nu12,G12,G13,G23,theta = payload["v"]
-ply = Lamina(); ply.theta = theta; ply.t = 0.1; ply.matobj = read_laminaprop((E1,E2,nu12,G12,G13,G23)); ply.rebuild()
+ply = Lamina(); ply.theta = theta; ply.t = 0.1; ply.matobj = read_laminaprop(tuple(payload["prop"])); ply.rebuild()
 c, s = np.cos(np.deg2rad(theta)), np.sin(np.deg2rad(theta))
 nu21 = nu12*E2/E1; den = 1-nu12*nu21
 C = np.zeros((2,2,2,2)); C[0,0,0,0]=E1/den; C[1,1,1,1]=E2/den; C[0,0,1,1]=C[1,1,0,0]=nu12*E2/den
@@ -279,9 +291,17 @@ for a in range(3):
 want[3,3]=G[1,1]; want[3,4]=want[4,3]=G[1,0]; want[4,4]=G[0,0]
 out = {"real": ply.QL.tolist(), "oracle": want.tolist(), "maxdiff": float(abs(ply.QL-want).max())}
 '''
-    r = run_real(script, {'v': [130e9, 9e9, 0.31, 5.2e9, 4.1e9, 3.3e9, 27.0]})
-    r['reproduced'] = bool(r.get('maxdiff', 0) > 1e-3)
+    v = [130e9, 9e9, 0.31, 5.2e9, 4.1e9, 3.3e9, 27.0]
+    prop = v[:6]
+    if tag == 'iso3':
+        v = [70e9, 70e9, 0.3, 70e9 / 2.6, 70e9 / 2.6, 70e9 / 2.6, 27.0]
+        prop = [70e9, 70e9, 0.3]
+    elif tag == 'ortho9':
+        prop = v[:6] + [20e9, 0.25, 0.4]
+    r = run_real(script, {'v': v, 'prop': prop})
+    r['reproduced'] = bool(r.get('maxdiff', 0) > 1e-6 * 130e9) or bool(r.get('raised'))
     r['entry'] = [i, j]
+    r['input'] = 'ply at 27 deg with laminaprop=%r' % (prop,)
     return r
 
 
